@@ -16,6 +16,19 @@ Record pcfg := PCfg {
   has_errh : bool           (* ReplyPublishErrorHandler != nil *)
 }.
 
+(** WHAT error value the handler returned, beyond its text, and the state of the handler's (= the message's)
+    context when it returned.  The code under study looks at neither: handler.go passes [handlerErr] on to
+    OnCommandProcessed whatever it is, MarshalReply takes [HandleErr.Error()], the policy tests [HandleErr != nil].
+    They are inputs so that the theorems quantify over them and the correspondence check varies them. *)
+Inductive errkind :=
+| EPlain            (* errors.New(text) *)
+| EWrapped          (* fmt.Errorf("...: %w", base) *)
+| ECanceled         (* context.Canceled itself *)
+| EDeadline         (* context.DeadlineExceeded itself *)
+| ECtxOwn           (* the handler context's own ctx.Err() *)
+| ECtxOwnWrapped.   (* an error wrapping the handler context's own ctx.Err() *)
+Inductive ctxstate := CtxLive | CtxCancelled | CtxTimedOut.
+
 (** everything one delivery depends on *)
 Record pinput := PIn {
   p_orig : bool;            (* the original message is in the handler's context (always with cqrs.CommandProcessor) *)
@@ -26,8 +39,14 @@ Record pinput := PIn {
   p_modify_ok : bool;       (* ModifyNotificationMessage returns nil *)
   p_topic_ok : bool;        (* GeneratePublishTopic returns nil *)
   p_pub_ok : bool;          (* Publisher.Publish(replyTopic, notification) returns nil *)
-  p_swallow : bool          (* ReplyPublishErrorHandler returns nil *)
+  p_swallow : bool;         (* ReplyPublishErrorHandler returns nil *)
+  p_errkind : errkind;      (* which error value (irrelevant when [p_err = None]) *)
+  p_ctx : ctxstate          (* the handler's context when handleFunc returned *)
 }.
+
+(** the same delivery with another error VALUE (same text) in another context state *)
+Definition with_errvalue (i : pinput) (k : errkind) (x : ctxstate) : pinput :=
+  PIn (p_orig i) (p_op i) (p_res i) (p_err i) (p_nid i) (p_modify_ok i) (p_topic_ok i) (p_pub_ok i) (p_swallow i) k x.
 
 Inductive pevent :=
 | PCall                               (* handleFunc invoked *)
@@ -111,8 +130,19 @@ Section Processed.
                           && N.eqb (n_err n) (errtext (p_err i))
                       | _ => true end) tr.
 
+  (** a reply is handed to the publisher exactly when marshalling, the operation id, the Modify hook and
+      the topic allow it - for EVERY handler outcome: no error, or any error value in any context state *)
+  Definition reaches_publish (c : pcfg) (i : pinput) : bool :=
+    p_orig i && is_some (enc (p_res i)) && negb (N.eqb (p_op i) 0)
+    && (negb (has_modify c) || p_modify_ok i) && p_topic_ok i.
+  Definition publishes_of (tr : list tevent) : nat :=
+    length (filter (fun e => match e with TP (PPublish _) => true | _ => false end) tr).
+  Definition published_ok (c : pcfg) (i : pinput) (tr : list tevent) : bool :=
+    Nat.eqb (publishes_of tr) (if reaches_publish c i then 1 else 0).
+
   Definition processed_ok (c : pcfg) (i : pinput) (tr : list tevent) (final : settle) : bool :=
     settle_after_reply tr false 0
     && settle_eqb final (expected_settle c i)
-    && content_ok i tr.
+    && content_ok i tr
+    && published_ok c i tr.
 End Processed.
